@@ -401,7 +401,8 @@ def _float_case(cfg, env):
         env[name] = float(rng.uniform(0.3, 2.5))
         return env[name]
 
-    times = np.array([0.0, 0.7, 1.9])
+    # floats only: an unsorted axis with one far point (rate x time beyond the underflow of exp) - "arbitrary time axes"
+    times = np.array([0.0, 0.7, 1.9]) if not env.get("__far") else np.array([900.0, 0.0, 0.7, 1.9])
     with warnings.catch_warnings():
         warnings.simplefilter("ignore")
         if cfg["kind"] == "builtin":
@@ -466,7 +467,7 @@ def concrete(batch, env):
 
 def replay(data):
     cfg = data.get("item") or data["cfg"]["items"][0]
-    for trial in ({"__sum1": True}, {}, dict(data.get("env", {}))):
+    for trial in ({"__sum1": True}, {}, {"__far": True}, dict(data.get("env", {}))):
         try:
             v, d = _float_case(cfg, dict(trial))
         except Exception as ex:  # noqa: BLE001
